@@ -286,6 +286,8 @@ def correspondence(ctx):
         corr_basis_change(ctx, pend, cfg, g)
         corr_kraus(ctx, pend, cfg, g, eps)
         pend.finish()
+    for name in (QUICK_MULTI if ctx.quick else []):
+        corr_multi(ctx, cfg_of(name), ctx.npgen(f"corr-multi-{name}"))
     corr_errors(ctx)
 
 
@@ -964,7 +966,97 @@ def chk_mprocess(cfg, hss):
             need(dev(hs_of_kraus_ref(cfg, ks), hs) * 1e-2, "C02/MProcess.to_kraus_matrices/roundtrip", f"outcome {i}")
 
 
-CHECKS = {"state": chk_state, "density": chk_density, "povm": chk_povm, "gate": chk_gate, "choi": chk_choi, "kraus": chk_kraus,
+def comp_ref(d, mode):
+    pairs = [(r, c) for r in range(d) for c in range(d)] if mode == "row_major" else [(r, c) for c in range(d) for r in range(d)]
+    out = []
+    for r, c in pairs:
+        e = np.zeros((d, d), dtype=np.complex128); e[r, c] = 1
+        out.append(e)
+    return out
+
+
+def chk_compform(cfg, hss):
+    """computational-basis forms (row- and column-major) of a gate / of every outcome of a measurement process against the
+    defining formula HS_cb[i,j] = tr(E_i^† Λ(E_j)), (E_i) the computational matrix basis in the requested order"""
+    c, d = cfg.c, cfg.d
+    hss = [np.asarray(h, dtype=np.float64) for h in hss]
+    tag = f"{len(c._elemental_systems)}sys"
+    def order(mode):
+        cb = call(f"C02/CompositeSystem.comp_basis({mode})", lambda: dense_basis(c.comp_basis(mode)))
+        need(dev(cb, np.array(comp_ref(d, mode))), f"C02/CompositeSystem.comp_basis({mode})/{tag}/order",
+             f"comp_basis(mode={mode}) is not the {mode} computational basis")
+
+    def forms(mode):
+        E = comp_ref(d, mode)
+        refs = []
+        for hs in hss:
+            imgs = [apply_hs(cfg, hs, e) for e in E]
+            refs.append(np.array([[np.trace(ei.conj().T @ im) for im in imgs] for ei in E]))
+        gate = call("C02/Gate", lambda: Gate(c, hss[0].copy(), is_physicality_required=False))
+        m = call("C02/Gate.convert_to_comp_basis", lambda: gate.convert_to_comp_basis(mode))
+        need(dev(m, refs[0]), f"C02/Gate.convert_to_comp_basis({mode})/{tag}/formula", "HS_cb[i,j] != tr(E_i^† Λ(E_j))")
+        back = call("C02/convert_hs", lambda: G.convert_hs(m, mb.get_comp_basis(d, mode), c.basis()))
+        need(dev(back, hss[0]), f"C02/convert_hs/roundtrip/comp({mode})/{tag}", "basis -> comp -> basis is not the identity")
+
+    def mforms(mode):
+        if len(hss) > 1 and c.is_orthonormal_hermitian_0thprop_identity:
+            E = comp_ref(d, mode)
+            mp = call("C02/MProcess", lambda: MProcess(c, [h.copy() for h in hss], is_physicality_required=False))
+            ms = call("C02/MProcess.convert_to_comp_basis", lambda: mp.convert_to_comp_basis(mode))
+            for i, hs in enumerate(hss):
+                imgs = [apply_hs(cfg, hs, e) for e in E]
+                ref = np.array([[np.trace(ei.conj().T @ im) for im in imgs] for ei in E])
+                need(dev(ms[i], ref), f"C02/MProcess.convert_to_comp_basis({mode})/{tag}/formula", f"outcome {i}: HS_cb[i,j] != tr(E_i^† Λ(E_j))")
+
+    parts = []
+    for mode in ("row_major", "column_major"):
+        parts += [lambda mode=mode: order(mode), lambda mode=mode: forms(mode), lambda mode=mode: mforms(mode)]
+    sections(*parts)
+
+
+_S = np.array([[1, 0], [0, 1j]], dtype=np.complex128)
+_H = np.array([[1, 1], [1, -1]], dtype=np.complex128) / np.sqrt(2)
+_RY = np.array([[1, -1], [1, 1]], dtype=np.complex128) / np.sqrt(2)
+
+
+def multi_inputs(g, cfg):
+    """(label, list of HS matrices) on a composite system with >= 2 subsystems: complex product unitaries, a random unitary,
+    a 2-outcome measurement process with complex Kraus operators, a non-physical real matrix"""
+    d, n = cfg.d, cfg.n
+    out = []
+    if d == 4:
+        out.append(("S.RY(x)H.S", [hs_of_kraus_ref(cfg, [np.kron(_S @ _RY, _H @ _S)]).real.copy()]))
+        out.append(("H.S(x)S", [hs_of_kraus_ref(cfg, [np.kron(_H @ _S, _S)]).real.copy()]))
+    out.append(("unitary", [hs_of_kraus_ref(cfg, [qobj.rand_unitary(g, d)]).real.copy()]))
+    groups = qobj.rand_kraus(g, d, 2, 1)
+    out.append(("mprocess2", [hs_of_kraus_ref(cfg, ks).real.copy() for ks in groups]))
+    out.append(("nonphysical", [g.standard_normal((n, n))]))
+    return out
+
+
+QUICK_MULTI = ["2qubit/pauli"]          # quick tier: multi-subsystem systems only for the computational-basis forms
+
+
+def corr_multi(ctx, cfg, g):
+    pend = Pend(ctx)
+    c, d, Bq = cfg.c, cfg.d, cfg.Bq
+    hd = [str(d), Bq]
+    for mode in ("row_major", "column_major"):
+        pend.add("compBasis", [d, mode], lambda mode=mode: dense_basis(c.comp_basis(mode)), "c", f"{cfg.name}/comp_basis({mode})")
+    for lab, hss in multi_inputs(g, cfg):
+        gate = Gate(c, hss[0].copy(), is_physicality_required=False)
+        mp = MProcess(c, [h.copy() for h in hss], is_physicality_required=False) if len(hss) > 1 else None
+        for mode in ("row_major", "column_major"):
+            pend.add("convertToComp", hd + [cl(hss[0]), mode], lambda gate=gate, mode=mode: gate.convert_to_comp_basis(mode), "c",
+                     f"{cfg.name}/Gate.convert_to_comp_basis({mode})/{lab}")
+            if mp is not None:
+                for i in range(len(hss)):
+                    pend.add("convertToComp", hd + [cl(hss[i]), mode], lambda mp=mp, mode=mode, i=i: mp.convert_to_comp_basis(mode)[i], "c",
+                             f"{cfg.name}/MProcess.convert_to_comp_basis({mode})[{i}]/{lab}")
+    pend.finish()
+
+
+CHECKS = {"compform": chk_compform, "state": chk_state, "density": chk_density, "povm": chk_povm, "gate": chk_gate, "choi": chk_choi, "kraus": chk_kraus,
           "notcp": chk_not_cp, "linear": chk_linear, "mprocess": chk_mprocess}
 
 
@@ -1071,6 +1163,15 @@ def oracle(ctx, volume=1):
             run_check(ctx, "mprocess", cfg, (hss,), {"check": "mprocess", "cfg": name, "hss": enc(np.array(hss))})
 
 
+    multi = QUICK_MULTI if ctx.quick else [nm for nm in THOROUGH_CFGS + ["qutritxqubit"] if len(cfg_of(nm).c._elemental_systems) > 1]
+    for name in multi:
+        cfg = cfg_of(name)
+        g = ctx.npgen(f"oracle-multi-{name}-{volume}")
+        for lab, hss in multi_inputs(g, cfg):
+            ctx.case(("o-compform", name, lab, float(hss[0][1, 1])), sample={"op": "compform", "cfg": name, "case": lab})
+            run_check(ctx, "compform", cfg, (hss,), {"check": "compform", "cfg": name, "case": lab, "hss": enc(np.array(hss))})
+
+
 def search(ctx):
     oracle(ctx, volume=3)
 
@@ -1099,6 +1200,8 @@ def replay(ctx, data):
             chk_linear(cfg, r["seed"])
         elif kind == "mprocess":
             chk_mprocess(cfg, list(dec(r["hss"]).real))
+        elif kind == "compform":
+            chk_compform(cfg, list(dec(r["hss"]).real))
         elif kind == "convert":
             chk_convert(cfg, dict(other_bases(cfg))[r["other"]], dec(r["hs"]).real, dec(r["v"]).real)
         else:
